@@ -143,7 +143,7 @@ def check(pid, tier, only_cfg=None, quiet=False):
         ok = any(re.search(spec["expect"], n) for n in failing)
         canary_report.append({"canary": cr["canary"], "killed": ok, "failing_obligations": failing[:8]})
         if not ok:
-            canary_bad.append(cr["canary"])
+            canary_bad.append(cr["canary"] + (" [canary run crashed: " + cr.get("error", "")[-300:] + "]" if cr["status"] != "ok" else ""))
 
     # replay files
     replay_paths = []
